@@ -119,6 +119,12 @@ std::map<std::string, OpFn> &registry()
     return r;
 }
 
+std::map<std::string, std::function<std::string(const Val &)>> &obj_printers()
+{
+    static std::map<std::string, std::function<std::string(const Val &)>> r;
+    return r;
+}
+
 // ------------------------------------------------------------------ JSON helpers
 std::string jstr(const std::string &s)
 {
@@ -461,7 +467,11 @@ std::string val_json(const Val &v, bool full)
             o += "]}";
             return o;
         }
-        case Val::OBJ: return "{\"k\":\"obj\",\"type\":" + jstr(v.s) + "}";
+        case Val::OBJ: {
+            auto it = obj_printers().find(v.s);
+            if (it != obj_printers().end()) return it->second(v);
+            return "{\"k\":\"obj\",\"type\":" + jstr(v.s) + "}";
+        }
         case Val::LIST: {
             std::string o = "[";
             for (size_t i = 0; i < v.list.size(); i++) {
